@@ -729,6 +729,10 @@ class Campaign:
                 if a is MUTE:
                     dead = True
                     l, c = pts[pi][0], pts[pi][1]
+                    if len(self.crashes) >= 5:       # enough confirmed crashes to report; do not spend the budget on more
+                        self.unobserved += 1
+                        ans[m][pi] = "UNOBSERVED"
+                        continue
                     ok, seen = confirm_mute(self.exe, d.text, m, l, c)
                     if ok:
                         self.crashes.append((i, m, pi, [repr(x) for x in seen]))
@@ -866,6 +870,9 @@ def replay_corpus(ctx, pid, exe, judge):
         reqs = corpus_requests(c)
         res = run_docs(exe, [("file:///corpus_%s.spl" % name[:-5], c["text"], [(m, l, col) for (m, l, col, _) in reqs])], workers=1)
         diags, ans = res[0]
+        if any(a is MUTE for a in ans):     # a crash hides the later requests: ask each one in its own process
+            ans = [run_docs(exe, [("file:///corpus_%s.spl" % name[:-5], c["text"], [(m, l, col)])], workers=1)[0][1][0]
+                   for (m, l, col, _) in reqs]
         for (m, l, col, e), a in zip(reqs, ans):
             n += 1
             if sort_answer(a) != e:
@@ -923,3 +930,30 @@ def replay_known(ctx, pid, exe, class_doc):
         if still:
             ctx.known("%s: %s" % (e["id"], class_doc.get(e["id"], e.get("class", ""))))
     return out
+
+
+def report_oracle(ctx, pid, camp, fails, what, limit=3):
+    """VIOLATION lines for oracle failures: smallest documents first, one per (document, request, token); a missing
+    response is reported with the transcripts of the three confirming processes"""
+    crashed = {(i, m, pi): seen for (i, m, pi, seen) in camp.crashes}
+    allf = list(fails) + [(i, m, pi, MUTE, None) for (i, m, pi) in crashed if not any(f[:3] == (i, m, pi) for f in fails)]
+    done, n = set(), 0
+    for (i, m, pi, a, e) in sorted(allf, key=lambda f: (len(camp.items[f[0]][0].text), f[1], f[2])):
+        d, pts = camp.items[i]
+        key = (i, m, pts[pi][2] if pts[pi][2] is not None else ("pos", pi))
+        if key in done:
+            continue
+        done.add(key)
+        rep = dict(kind="oracle", property=pid, text=d.text, method=m, line=pts[pi][0], col=pts[pi][1],
+                   token=(d.tokens[pts[pi][2]] if d.kind == "valid" and pts[pi][2] is not None else None),
+                   observed=("no response" if a is MUTE else a),
+                   expected=(e if d.kind == "valid" else "a response (never an error)"),
+                   what=what % m, failures_in_this_run=len(allf), document_kind=d.kind)
+        if (i, m, pi) in crashed:
+            rep["transcripts"] = crashed[(i, m, pi)]
+            rep["what"] = "the server does not answer textDocument/%s (three fresh processes): the handler panicked" % m
+        ctx.violation(rep)
+        n += 1
+        if n >= limit:
+            break
+    return n
